@@ -785,7 +785,7 @@ Lemma sess_step_inv : forall s e, is_reauth_b e = false -> sess_inv s ->
   sess_inv (fst (sess_step_live repaired s e)) /\
   (s_addr s <> None -> s_addr (fst (sess_step_live repaired s e)) <> None).
 Proof.
-  intros s e Hre Hinv. destruct e as [id wire| |w|w|w| |tid| | | |aaa orc]; [| | | | | | | | | |discriminate];
+  intros s e Hre Hinv. destruct e as [id wire| |w|w|w| |tid| | | | |aaa orc]; [| | | | | | | | | | |discriminate];
     cbn [sess_step_live];
     try (apply sess_fsm_only_inv; [exact Hinv|]; try reflexivity; apply ipcp_learn_assigned);
     try (split; [exact Hinv|auto]);
@@ -818,7 +818,7 @@ Lemma sess_step_idle : forall fl s e, is_reauth_b e = false -> sess_idle s ->
   sess_idle (fst (sess_step_live fl s e)) /\ snd (sess_step_live fl s e) = [].
 Proof.
   intros fl s e Hre (H1 & H2 & H3). unfold sess_idle.
-  destruct e as [id wire| |w|w|w| |tid| | | |aaa orc]; [| | | | | | | | | |discriminate]; cbn [sess_step_live];
+  destruct e as [id wire| |w|w|w| |tid| | | | |aaa orc]; [| | | | | | | | | | |discriminate]; cbn [sess_step_live];
     unfold sess_down, sess_fsm_only; rewrite ?H1, ?H2, ?H3; try (simpl; auto; fail);
     try (destruct (s_owner s); simpl; rewrite ?H1, ?H2, ?H3; simpl; auto; fail).
   unfold ipcp_input, ipcp_req_c. destruct (parse_wire wire); simpl; auto.
@@ -854,7 +854,7 @@ Definition sess_ok2 (s : sess) : Prop := sess_idle s \/ (sess_inv s /\ s_addr s 
 Lemma sess_step_ok2 : forall s e, no_conflict e = true -> sess_ok2 s -> sess_ok2 (fst (sess_step_live repaired s e)).
 Proof.
   intros s e Hnc H. destruct (is_reauth_b e) eqn:Hre.
-  - destruct e as [? ?| |?|?|?| |?| | | |aaa orc]; try discriminate. simpl in Hnc. cbn [sess_step_live].
+  - destruct e as [? ?| |?|?|?| |?| | | | |aaa orc]; try discriminate. simpl in Hnc. cbn [sess_step_live].
     assert (HD : sess_ok2 (fst (sess_down repaired s))).
     { pose proof (sess_down_ok s) as [A B].
       destruct H as [H|[H Hne]]; [left; auto|right; destruct (B H); auto]. }
@@ -909,7 +909,7 @@ Proof.
   assert (F : forall c' r, ic_assigned c' = ic_assigned (s_cfg s) ->
               ic_assigned (s_cfg (fst (sess_fsm_only fl s c' r))) = ic_assigned (s_cfg s)).
   { intros c' [a st'] Hc. unfold sess_fsm_only. destruct (fold_left _ _ _). simpl. exact Hc. }
-  destruct e as [id wire| |w|w|w| |tid| | | |aaa orc]; [| | | | | | | | | |discriminate]; cbn [sess_step_live];
+  destruct e as [id wire| |w|w|w| |tid| | | | |aaa orc]; [| | | | | | | | | | |discriminate]; cbn [sess_step_live];
     try (apply F; try reflexivity; apply ipcp_learn_assigned); try reflexivity;
     try (unfold sess_down; destruct (s_owner s); try reflexivity;
          pose proof (F (s_cfg s) (down_event (s_fsm s)) eq_refl) as X;
@@ -1549,6 +1549,8 @@ Lemma no_sca_down : forall st, no_sca (fst (down_event st)).
 Proof. intros st id os. unfold down_event. split_matches; simpl; intuition congruence. Qed.
 Lemma no_sca_to_plus : forall st, no_sca (fst (to_plus st)).
 Proof. intros st id os. unfold to_plus. split_matches; simpl; intuition congruence. Qed.
+Lemma no_sca_to_minus : forall st, no_sca (fst (to_minus st)).
+Proof. intros st id os. unfold to_minus. split_matches; simpl; intuition congruence. Qed.
 Lemma no_sca_up_open : forall st, no_sca (fst (up_open st)).
 Proof. intros st id os. unfold up_open. split_matches; simpl; intuition congruence. Qed.
 
@@ -1579,10 +1581,10 @@ Lemma sess_step_acks_only_assigned : forall s e id os,
                                   (o_type o = 3%N \/ o_type o = 129%N \/ o_type o = 131%N)).
 Proof.
   intros s e id os Hok Hin.
-  destruct e as [rid wire| |w|w|w| |tid| | | |aaa orc]; cbn [sess_step_live] in Hin;
+  destruct e as [rid wire| |w|w|w| |tid| | | | |aaa orc]; cbn [sess_step_live] in Hin;
     try (rewrite sess_fsm_only_acts in Hin; exfalso;
          first [eapply no_sca_rca; exact Hin | eapply no_sca_rcn; exact Hin | eapply no_sca_rtr; exact Hin
-               | eapply no_sca_to_plus; exact Hin]).
+               | eapply no_sca_to_plus; exact Hin | eapply no_sca_to_minus; exact Hin]).
   - destruct Hok as [Hidle|Hinv].
     + destruct (sess_step_idle repaired s (EvReq rid wire) eq_refl Hidle) as [_ E].
       cbn [sess_step_live] in E. rewrite E in Hin. contradiction.
@@ -1637,6 +1639,8 @@ Lemma tr_down : forall st, tr_ok st (down_event st).
 Proof. intros st. unfold down_event. tr_brute. Qed.
 Lemma tr_to_plus : forall st, tr_ok st (to_plus st).
 Proof. intros st. unfold to_plus. tr_brute. Qed.
+Lemma tr_to_minus : forall st, tr_ok st (to_minus st).
+Proof. intros st. unfold to_minus. tr_brute. Qed.
 Lemma tr_rcr : forall st i r, tr_ok st (rcr_event st i r).
 Proof. intros st i r. unfold rcr_event, reply. tr_brute. Qed.
 Lemma tr_timeout : forall st, tr_ok st (if N.eqb st 5 then ([], 3%N) else ([], st)).
@@ -1694,8 +1698,8 @@ Qed.
 Lemma sess_step_fsm_ok : forall s e, sess_ok s -> fsm_ok s -> fsm_ok (fst (sess_step_live repaired s e)).
 Proof.
   intros s e Hok Hf.
-  destruct e as [rid wire| |w|w|w| |tid| | | |aaa orc]; cbn [sess_step_live];
-    try (apply sess_fsm_only_fsm_ok; [exact Hf|]; first [apply tr_rca|apply tr_rcn|apply tr_rtr|apply tr_timeout|apply tr_to_plus]).
+  destruct e as [rid wire| |w|w|w| |tid| | | | |aaa orc]; cbn [sess_step_live];
+    try (apply sess_fsm_only_fsm_ok; [exact Hf|]; first [apply tr_rca|apply tr_rcn|apply tr_rtr|apply tr_timeout|apply tr_to_plus|apply tr_to_minus]).
   - (* EvReq *)
     destruct Hf as (F1 & F2 & F3). unfold ipcp_input, ipcp_req_c.
     destruct (parse_wire wire) as [os| | |]; try (simpl; unfold fsm_ok; simpl; auto).
@@ -2204,4 +2208,78 @@ Lemma lcp_retransmit_same_magic : forall s, l_inv s ->
 Proof.
   intros s Hi. pose proof (lsess_step_inv s SLTimeout I Hi) as (_ & HL & _).
   cbn [lsess_step] in *. simpl in *. split; [reflexivity|]. intros x Hx Ht. apply (proj1 (HL x Hx Ht)).
+Qed.
+
+(* ------------------------------------------------------------------ authentication gates the NCPs *)
+Definition a_ok (st : aphase) : Prop := match st with AStarted s => sess_ok s | _ => True end.
+Definition is_aok (e : aev) : bool := match e with AOk _ _ _ _ => true | _ => false end.
+Definition a_started (st : aphase) : bool := match st with AStarted _ => true | _ => false end.
+
+Lemma astep_ok : forall st e, a_ok st -> a_ok (fst (fst (astep repaired st e))).
+Proof.
+  intros st e H. destruct st as [|n| |s]; destruct e as [v6 id wire| |aaa d orc ch| |ev]; simpl; auto;
+    try (destruct n; simpl; auto; fail).
+  - apply sess_start_ok.
+  - destruct v6; simpl; auto.
+    pose proof (sess_step_okE s (EvReq id wire) H) as X. destruct (sess_step repaired s (EvReq id wire)). exact X.
+  - pose proof (sess_step_okE s ev H) as X. destruct (sess_step repaired s ev). exact X.
+Qed.
+
+Lemma arun_ok : forall es st, a_ok st -> a_ok (arun repaired st es).
+Proof. induction es as [|e es IH]; intros st H; simpl; auto. apply IH. apply astep_ok. exact H. Qed.
+
+(* nothing is ever sent for IPCP before the session is started, and a session is started only by AOk *)
+Lemma astep_not_started : forall fl st e, a_started st = false ->
+  snd (fst (astep fl st e)) = [] \/ is_aok e = true.
+Proof.
+  intros fl st e H. destruct st as [|n| |s]; try discriminate;
+    destruct e as [v6 id wire| |aaa d orc ch| |ev]; simpl; auto; destruct n; simpl; auto.
+Qed.
+
+Lemma astep_stays_unstarted : forall fl st e, a_started st = false -> is_aok e = false ->
+  a_started (fst (fst (astep fl st e))) = false.
+Proof.
+  intros fl st e H He. destruct st as [|n| |s]; try discriminate;
+    destruct e as [v6 id wire| |aaa d orc ch| |ev]; try discriminate; simpl; auto; destruct n; simpl; auto.
+Qed.
+
+Lemma arun_unstarted : forall fl es st, a_started st = false -> forallb (fun e => negb (is_aok e)) es = true ->
+  a_started (arun fl st es) = false.
+Proof.
+  intros fl es. induction es as [|e es IH]; intros st H Hes; simpl in *; auto.
+  apply andb_true_iff in Hes. destruct Hes as [H1 H2]. apply IH; auto.
+  apply astep_stays_unstarted; auto. destruct (is_aok e); [discriminate|reflexivity].
+Qed.
+
+Lemma no_ncp_ack_before_auth : forall es e id os,
+  let st := arun repaired APre es in
+  In (Sca id os) (snd (fst (astep repaired st e))) ->
+  existsb is_aok es = true /\
+  exists s, st = AStarted s /\
+    exists v, ic_assigned (s_cfg s) = Some v /\ usable (ic_assigned (s_cfg s)) = true /\
+              (forall o, In o os -> o_type o = 3%N -> o_data o = v).
+Proof.
+  intros es e id os st Hin.
+  assert (Hst : a_started st = true).
+  { destruct (a_started st) eqn:E; [reflexivity|].
+    destruct (astep_not_started repaired st e E) as [H|H].
+    - rewrite H in Hin. contradiction.
+    - destruct e; try discriminate. destruct st; try discriminate; simpl in Hin;
+        try (destruct (N.eqb _ 0); simpl in Hin; intuition discriminate); try contradiction;
+        destruct left; simpl in Hin; contradiction. }
+  split.
+  - destruct (existsb is_aok es) eqn:E; [reflexivity|]. exfalso.
+    assert (F : forallb (fun e => negb (is_aok e)) es = true).
+    { clear -E. induction es as [|x es IH]; simpl in *; auto. apply orb_false_iff in E. destruct E as [E1 E2].
+      rewrite E1. simpl. auto. }
+    pose proof (arun_unstarted repaired es APre eq_refl F) as X. fold st in X. congruence.
+  - pose proof (arun_ok es APre I) as Hok. fold st in Hok.
+    destruct st as [|n| |s]; try discriminate. exists s. split; [reflexivity|]. simpl in Hok.
+    assert (Hin' : exists ev, In (Sca id os) (snd (sess_step repaired s ev))).
+    { destruct e as [v6 id' wire| |aaa d orc ch| |ev]; simpl in Hin; try contradiction.
+      - destruct v6; simpl in Hin; [contradiction|]. exists (EvReq id' wire).
+        destruct (sess_step repaired s (EvReq id' wire)). exact Hin.
+      - exists ev. destruct (sess_step repaired s ev). exact Hin. }
+    destruct Hin' as (ev & Hev). unfold sess_step in Hev. destruct (is_ended s); [contradiction|].
+    destruct (sess_step_acks_only_assigned s ev id os Hok Hev) as (v & A & B & C & _). exists v. auto.
 Qed.
